@@ -1537,7 +1537,8 @@ def stream_planewave(ctx):
             k2s = sorted({round(float((B @ numpy.array(n, dtype=float)).dot(B @ numpy.array(n, dtype=float))) / 2.0, 9) for _, n in sk})
             cuts = [None] + [(a + b) / 2 for a, b in zip(k2s, k2s[1:])][:3] + [k2s[-1] + 1.0]
             for e_cut in cuts:
-                for nonper, pcut in ((False, None), (True, None), (True, 0.7)):
+                R0 = V ** (1.0 / dim)
+                for nonper, pcut in ((False, None), (True, None), (True, 0.7), (True, R0), (True, 0.5 * R0), (True, 2.0 * R0), (False, 0.5 * R0)):
                     cc = dict(c, e_cutoff=e_cut, non_periodic=nonper, period_cutoff=pcut)
                     s.count('oracle:cutoffs')
                     Rc = pcut if pcut is not None else V ** (1.0 / dim)
@@ -1577,6 +1578,51 @@ def stream_planewave(ctx):
                     worst, wk = close_dicts(s, float_terms(Jc), both, band)
                     if worst > TOL:
                         s.violate('jellium_model(plane_wave=True) with cutoffs is not kinetic + potential', cc, {'term': wk, 'difference': worst})
+                    # the wrappers must hand every optional argument on (explicit period_cutoff, e_cutoff, include_constant,
+                    # non_periodic), with and without nuclei, in both bases
+                    if e_cut is not None and e_cut != cuts[1]:
+                        continue
+                    s.count('oracle:wrapper-arguments')
+                    try:
+                        const = 2.8372 / V ** (1.0 / dim)
+                        with_const = dict(both)
+                        with_const[()] = with_const.get((), 0.0) + const
+                        checks = [('plane_wave_hamiltonian(plane_wave=True)', pwh.plane_wave_hamiltonian(g, None, spinless, True, False, e_cut, nonper, pcut), both),
+                                  ('plane_wave_hamiltonian(plane_wave=True, include_constant=True)',
+                                   pwh.plane_wave_hamiltonian(g, None, spinless, True, True, e_cut, nonper, pcut), with_const)]
+                        if 'expect_pw' in dir() and 'geom' in dir():
+                            s.count('oracle:wrapper-arguments with nuclei')
+                            with_ext = dict(both)
+                            for k_, v_ in expect_pw.items():
+                                with_ext[k_] = with_ext.get(k_, 0.0) + v_
+                            checks.append(('plane_wave_hamiltonian(geometry, plane_wave=True)',
+                                           pwh.plane_wave_hamiltonian(g, geom, spinless, True, False, e_cut, nonper, pcut), with_ext))
+                            checks.append(('plane_wave_external_potential', pwh.plane_wave_external_potential(g, geom, spinless, e_cut, nonper, pcut), expect_pw))
+                            checks.append(('dual_basis_external_potential', pwh.dual_basis_external_potential(g, geom, spinless, nonper, pcut), expect_db))
+                            Jd = jm.jellium_model(g, spinless, False, False, e_cut, nonper, pcut)
+                            dual_ext = {k_: v_ for k_, v_ in float_terms(Jd).items()}
+                            for k_, v_ in expect_db.items():
+                                dual_ext[k_] = dual_ext.get(k_, 0.0) + v_
+                            checks.append(('plane_wave_hamiltonian(geometry, plane_wave=False)',
+                                           pwh.plane_wave_hamiltonian(g, geom, spinless, False, False, e_cut, nonper, pcut), dual_ext))
+                        checks.append(('plane_wave_hamiltonian(plane_wave=False, include_constant=True)',
+                                       pwh.plane_wave_hamiltonian(g, None, spinless, False, True, e_cut, nonper, pcut),
+                                       float_terms(jm.jellium_model(g, spinless, False, True, e_cut, nonper, pcut))))
+                        for name, impl, md in checks:
+                            worst, wk = close_dicts(s, float_terms(impl), md, band)
+                            if worst > TOL:
+                                s.violate(name + ' does not hand its optional arguments on / differs from the independently built Hamiltonian', cc,
+                                          {'term': wk, 'implementation': float_terms(impl).get(wk), 'expected': md.get(wk)})
+                        if e_cut is None and not nonper and pcut is None:
+                            for ic in (True, False):
+                                Q = pwh.jordan_wigner_dual_basis_hamiltonian(g, None, spinless, ic)
+                                R = of.jordan_wigner(pwh.plane_wave_hamiltonian(g, None, spinless, False, ic))
+                                worst, wk = close_dicts(s, float_terms(Q), float_terms(R), band)
+                                if worst > TOL:
+                                    s.violate('jordan_wigner_dual_basis_hamiltonian(include_constant) differs from jordan_wigner(plane_wave_hamiltonian)',
+                                              dict(cc, include_constant=ic), {'term': wk, 'difference': worst})
+                    except Exception as e:  # noqa: BLE001
+                        s.violate('a plane-wave wrapper raised with explicit optional arguments', cc, repr(e))
     # ---- Wigner-Seitz helpers
     for dimension in (1, 2, 3, 4, 5):
         for rs in (1.0, 2.5):
